@@ -270,6 +270,15 @@ class Snap:
         return (tuple((m["key"], m["impl"], (m["latest"] & 1) if latest_bit else None, m["feats"], m["fnv"] if fnv else m["cls"]) for m in self.mods), self.hash)
 
 
+def model_broken(tok):
+    """number of half-parsed modules the model sees in the context (F54); model-only field"""
+    return int(tok.split("|x=")[1]) if "|x=" in tok else 0
+
+
+def strip_x(tok):
+    return tok.split("|x=")[0]
+
+
 def strip_fnv(tok):
     """model replies carry no text hash: drop `.xxxxxxxx` after the class index"""
     if tok.startswith("D"):
@@ -349,7 +358,7 @@ def apply_edit(mod, kind, target=None, clash_ns=None):
     elif kind == "default":
         node_stmt(m, "leaf bd { type int8; default 300; }"); f = ("unres", 7)
     elif kind == "feature-iff":
-        m.extra_top += " feature badf { if-feature nosuchf; }"; f = ("late", 7)
+        m.feats.append(Feat("badf", "nosuchf")); f = ("late", 7)
     elif kind == "dup-node":
         node_stmt(m, "leaf dup { type string; } leaf dup { type string; }"); f = ("compile", 4)
     elif kind == "list-key":
